@@ -4,25 +4,12 @@
   semantics (`Model/Path/SvgSpec.lean`).  Mathlib-free.
 -/
 import LyonVerif.Model.Path.SvgSpec
+import LyonVerif.Lemmas.Trace
 
 namespace Lyon.Svg
 open Lyon.Path
 
-section nest
-variable {π A : Type}
 
-theorem nestState_append (b : Bool) (l1 l2 : List (Call π A)) :
-    nestState b (l1 ++ l2) = (nestState b l1).bind (fun b' => nestState b' l2) := by
-  induction l1 generalizing b with
-  | nil => simp [nestState]
-  | cons c r ih => cases b <;> cases c <;> simp [nestState, ih]
-
-theorem nestState_append_of {b b1 b2 : Bool} {l1 l2 : List (Call π A)}
-    (h1 : nestState b l1 = some b1) (h2 : nestState b1 l2 = some b2) :
-    nestState b (l1 ++ l2) = some b2 := by
-  simp [nestState_append, h1, h2]
-
-end nest
 
 variable {α ρ : Type}
 
@@ -118,18 +105,23 @@ theorem arc_nest {s : St α} {b : Bool} (o : ArcOut α) (h : Inv s b) :
   | skip => exact ⟨b, by simp [arc, nestState], by simpa [arc] using h0⟩
   | curve start near quads =>
     refine ⟨true, ?_⟩
-    simp only [arc, arcCurve]
-    by_cases hn : s.needMoveTo = true
-    · have hm := moveTo_nest start h0
-      have he := emitQuads_nest (moveTo { s with lastCtrl := s.cur } start).1 quads hm.2
-      simp only [hn, if_true]
-      exact ⟨nestState_append_of hm.1 he.1, he.2⟩
-    · have hb : b = true := by
-        obtain ⟨h1, _⟩ := h
-        cases b <;> simp_all
-      subst hb
-      have he := emitQuads_nest _ quads h0
-      cases near <;> simp_all [nestState]
+    have key : nestState b (arcCurve { s with lastCtrl := s.cur } start near quads).2 = some true ∧
+        Inv (arcCurve { s with lastCtrl := s.cur } start near quads).1 true := by
+      simp only [arcCurve]
+      by_cases hn : s.needMoveTo = true
+      · have hm := moveTo_nest start h0
+        have he := emitQuads_nest (moveTo { s with lastCtrl := s.cur } start).1 quads hm.2
+        simp only [hn, if_true]
+        exact ⟨nestState_append_of hm.1 he.1, he.2⟩
+      · have hb : b = true := by
+          obtain ⟨h1, _⟩ := h
+          cases b <;> simp_all
+        subst hb
+        have he := emitQuads_nest _ quads h0
+        cases near <;> simp_all [nestState]
+    refine ⟨by simpa [arc] using key.1, ?_⟩
+    obtain ⟨k1, k2⟩ := key.2
+    exact ⟨by simpa [arc] using k1, by simp only [arc]; exact k2⟩
 
 theorem arcTo_nest {s : St α} {b : Bool} (to : Pt α) (o : SvgArcOut α) (h : Inv s b) :
     ∃ b', nestState b (arcTo s to o).2 = some b' ∧ Inv (arcTo s to o).1 b' := by
@@ -185,12 +177,13 @@ open Lyon.Path
 variable {α ρ : Type}
 
 /-- what `last_cmd` / `last_ctrl` must say for the reference's "previous command".  After an arc
-nothing is required: this is exactly where `WithSvg` is out of step (see `Props/C15.lean`). -/
+`last_cmd` may still name the curve that preceded the arc; what makes the next smooth command
+reflect nothing is `last_ctrl = current_position` (lyon commit 059d9c0c). -/
 def PrevRel (l : St α) : Prev α → Prop
   | .other => l.lastCmd ≠ .quadraticTo ∧ l.lastCmd ≠ .cubicTo
   | .quad c => l.lastCmd = .quadraticTo ∧ l.lastCtrl = c
   | .cubic c => l.lastCmd = .cubicTo ∧ l.lastCtrl = c
-  | .arc => True
+  | .arc => l.lastCtrl = l.cur
 
 structure Sim (l : St α) (s : Spec α) : Prop where
   cur : l.cur = s.cur
@@ -287,9 +280,9 @@ theorem cubicTo_eq (l : St α) (c1 c2 to : Pt α) :
   rcases hb : beginIfNeeded l to with ⟨s1, k1, sk⟩
   cases sk <;> simp
 
-/-- `line_to` (also the straight-line case of `arc_to`, remembered as `.arc`) -/
+/-- `line_to` (also the straight-line case of `arc_to`) -/
 theorem sim_lineTo {l : St α} {s : Spec α} (h : Sim l s) (to : Pt α) (pv : Prev α)
-    (hpv : pv = .other ∨ pv = .arc) :
+    (hpv : pv = .other ∨ pv = .other) :
     (lineTo l to).2 = (s.draw to (.line to ()) pv).2 ∧
       Sim (lineTo l to).1 (s.draw to (.line to ()) pv).1 := by
   rw [lineTo_eq]
@@ -362,19 +355,28 @@ theorem sim_arc {l : St α} {s : Spec α} (h : Sim l s) (o : ArcOut α) :
 theorem sim_arcTo {l : St α} {s : Spec α} (h : Sim l s) (to : Pt α) (o : SvgArcOut α) :
     (arcTo l to o).2 = (s.arcTo to o).2 ∧ Sim (arcTo l to o).1 (s.arcTo to o).1 := by
   cases o with
-  | straight => exact sim_lineTo h to .arc (Or.inr rfl)
+  | straight => exact sim_lineTo h to .other (Or.inl rfl)
   | arc o => exact sim_arc h o
 
 section
 variable [Add α] [Sub α]
 
-theorem sim_smoothCubic {l : St α} {s : Spec α} (h : Sim l s) (hp : s.prev ≠ .arc) :
+/-- reflecting a point about itself: the only algebra the adapter relies on -/
+theorem pt_refl (hα : ∀ a : α, a + (a - a) = a) (p : Pt α) : p + (p - p) = p := by
+  obtain ⟨x, y⟩ := p
+  show Pt.mk (x + (x - x)) (y + (y - y)) = Pt.mk x y
+  rw [hα x, hα y]
+
+theorem sim_smoothCubic (hα : ∀ a : α, a + (a - a) = a) {l : St α} {s : Spec α} (h : Sim l s) :
     smoothCubicCtrl l = s.smoothCubic := by
   have hpr := h.prev
   have hc := h.cur
   unfold smoothCubicCtrl Spec.smoothCubic
   cases hv : s.prev with
-  | arc => exact absurd hv hp
+  | arc =>
+    rw [hv] at hpr
+    simp only [PrevRel] at hpr
+    cases hl : l.lastCmd <;> simp [hpr, pt_refl hα, hc]
   | other =>
     rw [hv] at hpr
     obtain ⟨_, h2⟩ := hpr
@@ -388,13 +390,16 @@ theorem sim_smoothCubic {l : St α} {s : Spec α} (h : Sim l s) (hp : s.prev ≠
     obtain ⟨h1, h2⟩ := hpr
     simp [h1, h2, hc]
 
-theorem sim_smoothQuad {l : St α} {s : Spec α} (h : Sim l s) (hp : s.prev ≠ .arc) :
+theorem sim_smoothQuad (hα : ∀ a : α, a + (a - a) = a) {l : St α} {s : Spec α} (h : Sim l s) :
     smoothQuadCtrl l = s.smoothQuad := by
   have hpr := h.prev
   have hc := h.cur
   unfold smoothQuadCtrl Spec.smoothQuad
   cases hv : s.prev with
-  | arc => exact absurd hv hp
+  | arc =>
+    rw [hv] at hpr
+    simp only [PrevRel] at hpr
+    cases hl : l.lastCmd <;> simp [hpr, pt_refl hα, hc]
   | other =>
     rw [hv] at hpr
     obtain ⟨h1, _⟩ := hpr
@@ -408,10 +413,9 @@ theorem sim_smoothQuad {l : St α} {s : Spec α} (h : Sim l s) (hp : s.prev ≠ 
     obtain ⟨h1, h2⟩ := hpr
     simp [h1, h2, hc]
 
-/-- One command: same calls, relation preserved — unless a smooth command directly follows an
-arc. -/
-theorem sim_step (g : Geo α ρ) {l : St α} {s : Spec α} (h : Sim l s) (c : Cmd α ρ)
-    (hs : c.isSmooth = true → s.prev ≠ .arc) :
+/-- One command: same calls, relation preserved. -/
+theorem sim_step (hα : ∀ a : α, a + (a - a) = a) (g : Geo α ρ) {l : St α} {s : Spec α}
+    (h : Sim l s) (c : Cmd α ρ) :
     (step g l c).2 = (s.step g c).2 ∧ Sim (step g l c).1 (s.step g c).1 := by
   have hc := h.cur
   cases c with
@@ -433,20 +437,20 @@ theorem sim_step (g : Geo α ρ) {l : St α} {s : Spec α} (h : Sim l s) (c : Cm
   | relQuadTo k v =>
     simpa [step, Spec.step, relToAbs, hc] using sim_quadTo h (s.cur + k) (s.cur + v)
   | smoothQuadTo p =>
-    have := sim_smoothQuad h (hs rfl)
+    have := sim_smoothQuad hα h
     simpa [step, Spec.step, this] using sim_quadTo h s.smoothQuad p
   | smoothRelQuadTo v =>
-    have := sim_smoothQuad h (hs rfl)
+    have := sim_smoothQuad hα h
     simpa [step, Spec.step, relToAbs, hc, this] using sim_quadTo h s.smoothQuad (s.cur + v)
   | cubicTo k1 k2 p => exact sim_cubicTo h k1 k2 p
   | relCubicTo k1 k2 v =>
     simpa [step, Spec.step, relToAbs, hc] using
       sim_cubicTo h (s.cur + k1) (s.cur + k2) (s.cur + v)
   | smoothCubicTo k2 p =>
-    have := sim_smoothCubic h (hs rfl)
+    have := sim_smoothCubic hα h
     simpa [step, Spec.step, this] using sim_cubicTo h s.smoothCubic k2 p
   | smoothRelCubicTo k2 v =>
-    have := sim_smoothCubic h (hs rfl)
+    have := sim_smoothCubic hα h
     simpa [step, Spec.step, relToAbs, hc, this] using
       sim_cubicTo h s.smoothCubic (s.cur + k2) (s.cur + v)
   | arcTo r p => simpa [step, Spec.step, hc] using sim_arcTo h p (g.endpoint r s.cur p)
@@ -455,31 +459,28 @@ theorem sim_step (g : Geo α ρ) {l : St α} {s : Spec α} (h : Sim l s) (c : Cm
       sim_arcTo h (s.cur + v) (g.endpoint r s.cur (s.cur + v))
   | arc r => simpa [step, Spec.step, hc] using sim_arc h (g.center r s.cur)
 
-/-- the reference's "previous command was an arc" is only ever set by an arc command -/
-theorem spec_prev_arc (g : Geo α ρ) (s : Spec α) (c : Cmd α ρ)
-    (h : (s.step g c).1.prev = .arc) : c.isArc = true := by
-  cases c <;> simp [Cmd.isArc] <;>
-    (simp only [Spec.step, Spec.moveTo, Spec.close, Spec.draw] at h
-     repeat' split at h
-     all_goals simp at h)
-
-theorem sim_run (g : Geo α ρ) (cmds : List (Cmd α ρ)) {l : St α} {s : Spec α} (a : Bool)
-    (h : Sim l s) (ha : s.prev = .arc → a = true) (hok : noSmoothAfterArc a cmds = true) :
+theorem sim_run (hα : ∀ a : α, a + (a - a) = a) (g : Geo α ρ) (cmds : List (Cmd α ρ))
+    {l : St α} {s : Spec α} (h : Sim l s) :
     (run g l cmds).2 = (Spec.run g s cmds).2 ∧ Sim (run g l cmds).1 (Spec.run g s cmds).1 := by
-  induction cmds generalizing l s a with
+  induction cmds generalizing l s with
   | nil => exact ⟨rfl, h⟩
   | cons c r ih =>
-    simp only [noSmoothAfterArc, Bool.and_eq_true, Bool.not_eq_true', Bool.and_eq_false_iff] at hok
-    obtain ⟨h1, h2⟩ := hok
-    have hs : c.isSmooth = true → s.prev ≠ .arc := by
-      intro hsm hp
-      have := ha hp
-      rcases h1 with h1 | h1 <;> simp_all
-    obtain ⟨e1, s1⟩ := sim_step g h c hs
-    obtain ⟨e2, s2⟩ := ih c.isArc s1 (spec_prev_arc g s c) h2
+    obtain ⟨e1, s1⟩ := sim_step hα g h c
+    obtain ⟨e2, s2⟩ := ih s1
     exact ⟨by simp [run, Spec.run, e1, e2], by simpa [run, Spec.run] using s2⟩
 
 end
+
+end Lyon.Svg
+
+namespace Lyon.Svg
+open Lyon.Path
+
+variable {α ρ : Type}
+
+/-- after any arc command that went through `arc`, `last_ctrl = current_position` -/
+theorem arc_lastCtrl (s : St α) (o : ArcOut α) : (arc s o).1.lastCtrl = (arc s o).1.cur := by
+  cases o <;> simp [arc]
 
 /-! ### "an open sub-path means the path is not empty" -/
 
